@@ -127,15 +127,15 @@ def do_argreuse_case(ctx, case):
     ctx.tally("argreuse")
     S_obj = set(case["S"])
     snapshot = set(S_obj)
-    before, out = len(ctx.violations), []
+    before, out, mutated = len(ctx.violations), [], False
     for m in case["members"]:
         g = do_single_case(ctx, dict(m, S=list(case["S"])), S_obj=S_obj)
         if g is not None:
             out.append(g)
-        if S_obj != snapshot:
+        if S_obj != snapshot and not mutated:
+            mutated = True  # reported once; the sequence goes on with the caller's (now changed) object, as a caller would
             ctx.violation("oracle", "caller-set-mutated", f"get_partially_parameterized_quantum_circuit changed the caller's set of layer ids: {sorted(snapshot)} became {sorted(S_obj)} "
                           f"(individual with {len(m['ind']['layers'])} layers)", case)
-            break
     for v in ctx.violations[before:]:
         if v["case"] is not case:
             v["what"] = f"with ONE set object {sorted(snapshot)} passed to individuals of {[len(m['ind']['layers']) for m in case['members']]} layers in sequence: " + v["what"]
@@ -258,11 +258,13 @@ def gen_case(rng, n=None, L=None):
 def gen_very_deep(rng, target):
     """1 qubit, 258-300 layers; the replacement is aimed at layer `target` ('last' / -1 / an index around 256)"""
     L = rng.randint(258, 300)
-    layers = [{"n": 1, "gates": [["R", 0]]} if rng.random() < 0.8 else {"n": 1, "gates": [["I", 0]]} for _ in range(L)]
-    for j in (255, 256, 257, 258 % L, L - 1):
+    # mostly parameterless layers (the model's name sort is quadratic), rotations at the targets and a few others
+    layers = [{"n": 1, "gates": [["R", 0]]} if rng.random() < 0.03 else {"n": 1, "gates": [["I", 0]]} for _ in range(L)]
+    for j in (0, 254, 255, 256, 257, 258 % L, 259 % L, L - 2, L - 1):
         layers[j] = {"n": 1, "gates": [["R", 0]]}
-    values = [round(rng.uniform(-3, 3), 4) + j * 1e-3 for j in range(sum(evqe.layer_n_parameters(l) for l in layers))]
     k = L - 1 if target == "last" else target
+    layers[k % L] = {"n": 1, "gates": [["R", 0]]}
+    values = [round(rng.uniform(-3, 3), 4) + j * 1e-3 for j in range(sum(evqe.layer_n_parameters(l) for l in layers))]
     return {"ind": {"n": 1, "layers": layers, "values": values}, "S": rng.choice([[], [-1], [257, 3], [k]]), "k": k, "new": [7.25, 8.5, 9.125]}
 
 
